@@ -107,13 +107,13 @@ def solve_all(prop, target, fv, obs, repo, tier, timeout_ms, cross, budget_s=Non
 
     z3.set_param("memory_max_size", 12000)
     if budget_s is None:
-        budget_s = 60 if tier == "quick" else 900
+        budget_s = 240 if tier == "quick" else 1800
     t_start = time.time()
     recs = {}
     hard = []
     hints = load_hints(prop)
     for ob in obs:
-        solve.solve_one(ob, timeout_ms=2000, use_cvc5=True, cross=False, early_cvc5_ms=4000, stop_after_early=True,
+        solve.solve_one(ob, timeout_ms=2000, use_cvc5=True, cross=False, early_cvc5_ms=6000, stop_after_early=True,
                         prefer_cvc5=obl_key(ob.name) in hints)
         rec = obligation_record(ob)
         if ob.verdict == "refuted":
